@@ -45,7 +45,7 @@ def parseLine (toks : List String) : Option SrcLine :=
   | _ => none
 
 def showLines (ls : List (List Tok)) : String :=
-  if ls.isEmpty then "-" else " <NL> ".intercalate (ls.map fun l => " ".intercalate (l.map (·.text)))
+  if ls.isEmpty then "<EMPTY>" else " <NL> ".intercalate (ls.map fun l => " ".intercalate (l.map (·.text)))
 
 def fuel : Nat := 30000
 
